@@ -225,6 +225,16 @@ Proof.
       assert (WFI (detach_all (update_at st ps (set_items [])) its)) by (eapply clear_list_tr_ok; eauto; simpl; auto).
       auto with c09.
     + apply extend_core_ok; auto. apply repeat_list_forall. apply rv_of_item_ok.
+  - (* LAdd *) destr_if; [apply trace_ok_nil|]. destruct (new_list_from q st its) as [c st1] eqn:NL.
+    destruct (new_list_from_wfs _ _ _ _ _ _ _ (proj1 W) CH NL) as (W1 & N1 & Wc).
+    pose proof (new_list_from_rel _ _ _ _ _ NL) as R1.
+    assert (WI1 : WFI (add_root st1 c)) by (eapply WFI_step; eauto using wfs_add_root).
+    apply extend_core_ok; auto.
+  - (* LMul *) destr_if; [apply trace_ok_nil|]. destruct (new_list_from q st []) as [c st1] eqn:NL.
+    destruct (new_list_from_wfs q st [] c st1 tid (snd ps) (proj1 W) (Forall_nil _) NL) as (W1 & N1 & Wc).
+    pose proof (new_list_from_rel _ _ _ _ _ NL) as R1.
+    assert (WI1 : WFI (add_root st1 c)) by (eapply WFI_step; eauto using wfs_add_root).
+    apply extend_tr_ok; auto. apply repeat_list_forall. apply rv_of_item_ok.
   - (* DSet *) repeat (destr_if; try apply trace_ok_nil); apply (write1_ok q); auto.
   - (* DDel *) repeat (destr_if; try apply trace_ok_nil); apply (write1_ok q); simpl; auto.
   - (* DPop *) destruct (assoc k its); [|apply trace_ok_nil]. repeat (destr_if; try apply trace_ok_nil); apply (write1_ok q); simpl; auto.
